@@ -183,6 +183,12 @@ func Walk(v IVisitor, n INode) {
 		Walk(v, &n.Body)
 		Walk(v, &n.Params)
 		Walk(v, &n.Name)
+	case *ClassElementName:
+		if n.Private != nil {
+			Walk(v, n.Private)
+		} else {
+			Walk(v, &n.PropertyName)
+		}
 	case *Field:
 		Walk(v, &n.Name)
 		Walk(v, n.Init)
